@@ -176,6 +176,11 @@ class BandwidthLimitedStream:
             except RequestExceededException as e:
                 self._time_utils.sleep(e.retry_time)
         else:
+            # This stream gives up waiting, so the wait that may have been
+            # scheduled for it must not delay the other streams any more.
+            self._leaky_bucket.cancel_scheduled_consumption(
+                self._request_token
+            )
             raise self._transfer_coordinator.exception
 
     def signal_transferring(self):
@@ -275,6 +280,19 @@ class LeakyBucket:
                 )
             else:
                 return self._release_requested_amt(amt, time_now)
+
+    def cancel_scheduled_consumption(self, request_token):
+        """Forget the consumption scheduled for a requester that gave up
+
+        :type request_token: RequestToken
+        :param request_token: The token of the consumption request that
+            will not be retried.
+        """
+        with self._lock:
+            if self._consumption_scheduler.is_scheduled(request_token):
+                self._consumption_scheduler.process_scheduled_consumption(
+                    request_token
+                )
 
     def _projected_to_exceed_max_rate(self, amt, time_now):
         projected_rate = self._rate_tracker.get_projected_rate(amt, time_now)
